@@ -233,10 +233,10 @@ func checkC03(c *Ctx) {
 		bad := ""
 		for _, ra := range rearms {
 			tgt := o.arming[ra.Static]
-			if tgt.pktIdx < 0 || core.Strip(ra.p.Resolve(core.Strip(ra.Common.Args[tgt.pktIdx]))) != registered {
+			if tgt.pktIdx < 0 || !same(ra.p.Resolve(core.Strip(ra.Common.Args[tgt.pktIdx])), registered) {
 				bad = "the packet re-armed on expiry is not the packet that was registered (a different packet or identifier would be retransmitted)"
 			}
-			if tgt.sessIdx >= 0 && s.sessIdx >= 0 && core.Strip(ra.p.Resolve(core.Strip(ra.Common.Args[tgt.sessIdx]))) != ssa.Value(s.fn.Params[s.sessIdx]) {
+			if tgt.sessIdx >= 0 && s.sessIdx >= 0 && !same(ra.p.Resolve(core.Strip(ra.Common.Args[tgt.sessIdx])), s.fn.Params[s.sessIdx]) {
 				bad = "the re-arm targets a different session"
 			}
 		}
